@@ -49,6 +49,9 @@ BufrDPBM  *bufr_create_BufrDPBM    ( int nb )
    int        i;
 
    dpbm           = (BufrDPBM *)malloc ( sizeof(BufrDPBM) );
+#ifdef LIBECBUFR_VERIF
+   bufr_verif_live[BUFR_VK_DPBM]++;
+#endif
    dpbm->index    = (int *)malloc( sizeof(int) * nb );
    dpbm->bit_map  = (int8_t *)malloc( sizeof(int8_t) * nb );
    dpbm->dp       = (int *)malloc( sizeof(int) * nb );
@@ -96,6 +99,9 @@ void  bufr_free_BufrDPBM ( BufrDPBM *dpbm )
    dpbm->nb_codes = 0;
    dpbm->nb_dp    = 0;
    free( dpbm );
+#ifdef LIBECBUFR_VERIF
+   bufr_verif_live[BUFR_VK_DPBM]--;
+#endif
    }
 
 /**
@@ -176,6 +182,9 @@ BufrDDOp *bufr_create_BufrDDOp( BUFR_Enforcement enforce )
    BufrDDOp *ddo;
 
    ddo = (BufrDDOp *)malloc( sizeof(BufrDDOp) );
+#ifdef LIBECBUFR_VERIF
+   bufr_verif_live[BUFR_VK_DDOP]++;
+#endif
    ddo->af_list             = lst_newlist();
 
    ddo->current             = NULL;
@@ -246,6 +255,9 @@ void bufr_free_BufrDDOp( BufrDDOp *ddo )
       arr_free( &(ddo->tlc_arr) );
 
    free( ddo );
+#ifdef LIBECBUFR_VERIF
+   bufr_verif_live[BUFR_VK_DDOP]--;
+#endif
    }
 
 /**
